@@ -195,6 +195,50 @@ def make_gate(rng, depth, pool, allow=("leaf", "general", "prepare", "controlled
     raise AssertionError(k)
 
 
+def warm_up(g):
+    """use the object once (every public view), as a caller would before changing its parameters"""
+    try:
+        g.as_matrix(); g.inverse().as_matrix(); g.is_hermitian(); g.is_unitary(); g.num_wires
+        f = ctx()["field"]
+        if all(p is not None for p in g.particles()) and len(g.particles()) == g.num_wires:
+            g.as_circuit_matrix([f] + [x for x in g.fields() if x is not f])
+    except Exception:
+        pass
+
+
+def reparam(g, rng):
+    """change the parameters of a live (possibly nested) gate object IN PLACE, staying inside the constructor's domain:
+    afterwards the object must behave exactly like a freshly constructed gate with the new parameters (no stale state)"""
+    n = type(g).__name__
+    if n == "ControlledGate":
+        reparam(g.tgate, rng)
+        if g.ctrl_state and rng.random() < 0.5:
+            k = rng.randrange(len(g.ctrl_state))
+            g.ctrl_state[k] = 1 - g.ctrl_state[k]
+    elif n == "MultiplexedGate":
+        for t in g.tgates:
+            reparam(t, rng)
+    elif n in ("RxGate", "RyGate", "RzGate", "RxxGate", "RyyGate", "RzzGate"):
+        g.theta = angle(rng)
+    elif n == "PhaseFactorGate":
+        g.phi = angle(rng)
+    elif n == "RotationGate":
+        g.ntheta = np.array([rng.uniform(-4, 4) for _ in range(3)])
+    elif n == "GeneralGate":
+        g.mat[rng.randrange(g.mat.shape[0]), :] *= rng.choice([1j, -1, -1j])      # stays unitary
+    elif n == "PrepareGate":
+        v = np.array(g.vec, dtype=float)
+        v[rng.randrange(len(v))] = rng.choice([-1.5, 0.25, 2.0])
+        g.vec = v
+    elif n == "TimeEvolutionGate":
+        g.t = rng.uniform(-3, 3)
+        for ps in g.h.pstrings:
+            ps.weight *= rng.choice([0.5, -1.0, 2.0])
+    elif n == "BlockEncodingGate":
+        for ps in g.h.pstrings:
+            ps.weight *= rng.choice([0.5, -0.25, 0.8])           # norm only shrinks: stays < 1
+
+
 def describe(g):
     """short structural description for evidence samples / finding keys"""
     n = type(g).__name__
